@@ -367,6 +367,46 @@ pub fn step(ex: &mut Exec, ix: usize, op: &Op) {
                 }
             }
         }
+        Op::JCheck { t, r, q, fin } => {
+            if ex.thread(*t).is_none() {
+                return;
+            }
+            ex.out.executed += 1;
+            let call = |r: String, q: String, fin: bool| {
+                move || {
+                    let lang = Lang::new();
+                    let rt = lib::tokenization::tokenize_record(&r, &lang);
+                    let qt = lib::tokenize_query(&q, &lang).fin(fin);
+                    if rt.words.is_empty() || qt.words.is_empty() {
+                        return "no-word".to_string();
+                    }
+                    format!("{}", lib::verif::jaccard_check(&rt.view(0), &qt.view(0)))
+                }
+            };
+            let got = match ex.thread(*t).unwrap().run(call(r.clone(), q.clone(), *fin)) {
+                Ok(x) => x,
+                Err(p) => {
+                    ex.rec(ix, op, &p.render());
+                    ex.panicked(ix, &p);
+                    return;
+                }
+            };
+            ex.rec(ix, op, &got);
+            let longer = r.chars().count().max(q.chars().count());
+            if ex.on_prop("C17") && (ex.scratch_prev_len[*t] > longer || longer > ex.capacity().unwrap_or(20)) {
+                ex.out.nontrivial = true;
+            }
+            ex.scratch_prev_len[*t] = longer;
+            if !ex.on_prop("C17") {
+                return;
+            }
+            ex.out.evals += 1;
+            match ex.pristine_ref(call(r.clone(), q.clone(), *fin)) {
+                Ok(want) if want == got => {}
+                Ok(want) => ex.viol("C17", "C17.prefilter_history", ix, "", format!("jaccard pre-filter({:?},{:?}) = {}", r, q, got), format!("{} on a thread that compared nothing before", want)),
+                Err(p) => ex.viol("C17", "C17.reference_panic", ix, &p.loc, got, p.render()),
+            }
+        }
         Op::WMatch { t, r, q, fin } => {
             if ex.thread(*t).is_none() {
                 return;
